@@ -155,6 +155,10 @@ def install(I):
         return _minmax(I, ctx, a, key, ast.Gt())
 
     def _minmax(I, ctx, a, key, op):
+        from . import nparr
+        if len(a) == 1 and key is None and (isinstance(a[0], nparr.NArr) or I.is_symbolic_seq(a[0])) and I.is_symbolic_seq(a[0]) and isinstance(op, ast.Gt):
+            seq = I.as_seq(ctx, a[0])
+            return I.call(ctx, I.ext["numpy"]["max"], [nparr.NArr(seq.length, seq.elem, "int", "max-arg")], {})
         items = I.iterate(ctx, a[0]) if len(a) == 1 else list(a)
         if not items:
             raise I.raise_exc("ValueError")
@@ -649,6 +653,12 @@ def builtin_method(I, ctx, o, name, via_super=False):
     if isinstance(o, B.MapVal):
         if name == "get":
             return B_(lambda ctx, k, d=None: B.map_get(I, ctx, o, k, d))
+        if o.pairs is not None and name in ("items", "keys", "values"):
+            if name == "items":
+                return B_(lambda ctx: ListVal([TupleVal([k, v]) for k, v in o.pairs]))
+            if name == "keys":
+                return B_(lambda ctx: ListVal([k for k, v in o.pairs]))
+            return B_(lambda ctx: ListVal([v for k, v in o.pairs]))
         if name == "items":
             return B_(lambda ctx: MapItems(o))
         if name == "keys":
@@ -803,16 +813,18 @@ def dict_method(I, ctx, o, name):
     if name == "get":
         def dget(ctx, k, d=None):
             try:
-                return o.items.get(I_hkey(k), d)
+                if not o.sym:
+                    return o.items.get(I_hkey(k), d)
             except Unsupported:
-                return B.map_get(I, ctx, B.map_from_dict(I, ctx, o), k, d)
+                pass
+            return B.map_get(I, ctx, B.map_from_dict(I, ctx, o), k, d)
         return B_(dget)
     if name == "items":
-        return B_(lambda ctx: ListVal([TupleVal([o.keyvals[k], v]) for k, v in o.items.items()]))
+        return B_(lambda ctx: ListVal([TupleVal([o.keyvals[k], v]) for k, v in o.items.items()] + [TupleVal([k, v]) for k, v in reversed(o.sym)]))
     if name == "keys":
-        return B_(lambda ctx: ListVal(list(o.keyvals.values())))
+        return B_(lambda ctx: ListVal(list(o.keyvals.values()) + [k for k, v in reversed(o.sym)]))
     if name == "values":
-        return B_(lambda ctx: ListVal(list(o.items.values())))
+        return B_(lambda ctx: ListVal(list(o.items.values()) + [v for k, v in reversed(o.sym)]))
     if name == "copy":
         def cp(ctx):
             d = DictVal()
